@@ -43,6 +43,7 @@ type thread struct {
 	cur     Pending
 	running bool
 	done    bool
+	adopted bool // goroutine started by the code under test: it may end without telling us
 }
 
 // Observer is called for every hook hit on a controlled object (gated or not),
@@ -323,7 +324,7 @@ func (s *Sched) Join(d time.Duration) bool {
 		s.mu.Lock()
 		all := true
 		for _, t := range s.threads {
-			if !t.done {
+			if !t.done && !(t.adopted && s.free) { // once the gates are open an adopted goroutine is on its own
 				all = false
 			}
 		}
@@ -376,7 +377,7 @@ func (s *Sched) At(point string, obj any, a, b int64) {
 	if t == nil && !s.free {
 		if prefix, ok := s.adopt[point]; ok {
 			s.nadopt++
-			t = &thread{name: prefix + strconv.Itoa(s.nadopt), gid: g, resume: make(chan struct{}), parked: make(chan Pending, 1)}
+			t = &thread{name: prefix + strconv.Itoa(s.nadopt), gid: g, resume: make(chan struct{}), parked: make(chan Pending, 1), adopted: true}
 			t.cur = Pending{Point: point, A: a, B: b, Obj: obj}
 			s.threads[t.name] = t
 			s.byGid[g] = t
